@@ -40,7 +40,7 @@ def mc(run, tier):
 
 
 def api_streams(run, nlists, sd, accels):
-    res, finals = tlc.simulate_final_states("OpSeq", "OpSeq.cfg", nlists, 91, sd + 11)
+    res, finals = tlc.simulate_final_states("OpSeq", "OpSeq.cfg", nlists, 109, sd + 11)
     run.add_mc("OpSeq(simulate)", res)
     out = []
     for k, st in enumerate(finals):
